@@ -19,6 +19,9 @@ const (
 var (
 	ErrObjectExists   = errors.New("object already exists")
 	ErrNoObjectExists = errors.New("no object exists")
+	// ErrUniqueIndexConflict is returned when storing an object would give it a value of a unique index
+	// that is already held by a different object.
+	ErrUniqueIndexConflict = errors.New("unique index value is held by another object")
 )
 
 type BinaryObject interface {
@@ -215,6 +218,31 @@ func (s *IndexedStore) putTx(tx Tx, o BinaryObject, allowReplace, requireReplace
 		return ErrObjectExists
 	} else {
 		replacing = true
+	}
+
+	// Check the unique indexes before anything is written:
+	// a value that is already held by a different object is a conflict.
+	for _, idx := range s.indexes {
+		if !idx.Unique {
+			continue
+		}
+		value, err := idx.ValueOf(o)
+		if err != nil {
+			return err
+		}
+		indexKey := s.indexKey(idx.Name, value)
+		if exists, err := tx.Exists(indexKey); err != nil {
+			return err
+		} else if !exists {
+			continue
+		}
+		holder, err := tx.Get(indexKey)
+		if err != nil {
+			return err
+		}
+		if string(holder.Value) != o.ObjectID() {
+			return ErrUniqueIndexConflict
+		}
 	}
 
 	data, err := o.MarshalBinary()
